@@ -150,6 +150,14 @@ class Obj(_RefT):
     def name(self): return f"Obj_{self.cls}"
 
 
+class Map(T):
+    """An immutable total map (specification/ghost values only): an SMT array."""
+    def __init__(self, k, v): self.k, self.v = k, v
+    def key(self): return (self.k, self.v)
+    def name(self): return f"Map_{self.k.name()}_{self.v.name()}"
+    def sort(self): return z3.ArraySort(self.k.sort(), self.v.sort())
+
+
 class Fun(T):
     """A callable value with a declared provider contract (see engine.Provider)."""
     def __init__(self, nm): self.nm = nm
@@ -163,7 +171,7 @@ def parse_type(s, env=None):
     if isinstance(s, T):
         return s
     g = dict(Int=Int, Bool=Bool, NoneT=NoneT, Str=Str, Opt=Opt, Seq=Seq, Tup=Tup, List=List, Deque=Deque, Dict=Dict,
-             Set=Set, Obj=Obj, Opaque=Opaque, Counter=Counter, Fun=Fun, DefaultDict=DefaultDict)
+             Set=Set, Obj=Obj, Opaque=Opaque, Counter=Counter, Fun=Fun, DefaultDict=DefaultDict, Map=Map)
     if env:
         g.update(env)
     return eval(s, g)
